@@ -64,6 +64,11 @@ const FAILING: &[&str] = &[
     "//node()[concat('a')]",
     "//*[last()][id('x')]",
 ];
+const DTD_BATTERY: &[&str] = &[
+    "//@*", "//*/@*", "count(//@*)", "name(//*/@*)", "string(//@*)", "//*[@*]", "//node()", "//text()", "string(/)", "//*", "//*/@*[1]", "//*/@*[last()]", "name((//@*)[1])",
+    "name((//@*)[last()])", "count(//*[@*])", "//@*[.!='']", "/*/@*", "name(/*/@*)", "concat(name(/*/@*[1]),'|',name(/*/@*[2]))", "//comment()|//processing-instruction()", "//*[1]/@*",
+    "sum(//@*)", "//*[@*][1]", "string(//*/@*[2])",
+];
 const PROBES: &[&str] = &["position()", "last()", "position()+last()", "//*[position()=last()]", "count(//*[last()])", "(//*)[last()]", "//*[1]", "string(position())"];
 
 impl Property for C19 {
@@ -71,7 +76,7 @@ impl Property for C19 {
         "C19"
     }
     fn rule(&self) -> String {
-        "a generated document and a sequence of 2-8 queries issued against ONE document and ONE evaluation context: generated expressions of every result type, queries that fail \
+        "a generated document (reference tree generator, or in a quarter of the cases an abstract document with DTD: defaulted attributes, entities, notations) and a sequence of 2-8 queries issued against ONE document and ONE evaluation context: generated expressions of every result type, queries that fail \
          inside predicates at depth 1-3 (unknown function, wrong arity, variable reference, unbound prefix) and probes that read position()/last() at top level or in filters right \
          after a failure. Oracle: (a) two parses of the same text give equal canonical trees, equal XmlDocument::eq and equal serialisations; (b) the canonical tree and the \
          serialisation of the document are the same before and after the whole sequence; (c) each query's result in the shared context equals its result with a fresh context on a \
@@ -86,7 +91,58 @@ impl Property for C19 {
         tier.pick(3000, 60000)
     }
     fn strategy(&self, _tier: Tier) -> BoxedStrategy<Json> {
-        (
+        // second source: documents with a DTD (defaulted attributes of several names, entities, notations) and a
+        // battery of queries that look at attributes and at everything; no reference values are needed here
+        let dtd = (proptest::collection::vec(any::<u16>(), 0..200), proptest::collection::vec(any::<u16>(), 0..60), proptest::collection::vec((0usize..4, 0usize..40), 2..8)).prop_map(|(g, c, qs)| {
+            let cfg = crate::gen::adoc::DocCfg {
+                max_nodes: 14,
+                max_depth: 4,
+                dtd: true,
+                namespaces: true,
+                attlist: true,
+                entity_refs: true,
+                xpath_values: true,
+                non_ascii_names: false,
+                cr_chars: false,
+                external_id: false,
+                prolog_misc: true,
+                comments_pis: true,
+                default_entity_refs: false,
+            };
+            let (doc, feats) = crate::gen::adoc::build(g, &cfg);
+            let r = crate::gen::adoc::render(&doc, c, false);
+            let mut queries: Vec<String> = vec![];
+            let mut fail_then_probe = false;
+            let mut last_failing = false;
+            for (kind, pick) in qs {
+                match kind {
+                    0 => {
+                        last_failing = true;
+                        queries.push(FAILING[pick % FAILING.len()].to_string());
+                    }
+                    1 => {
+                        if last_failing {
+                            fail_then_probe = true;
+                        }
+                        last_failing = false;
+                        queries.push(PROBES[pick % PROBES.len()].to_string());
+                    }
+                    _ => {
+                        last_failing = false;
+                        queries.push(DTD_BATTERY[pick % DTD_BATTERY.len()].to_string());
+                    }
+                }
+            }
+            let mut labels: Vec<String> = vec!["source:dtd-document".into()];
+            if feats.iter().any(|f| *f == "attlist") {
+                labels.push("doc-has-attlist".into());
+            }
+            if fail_then_probe {
+                labels.push("failing-query-then-position-probe".to_string());
+            }
+            json!({"doc": r.text, "queries": queries, "ns": [], "_labels": labels, "_nontrivial": true})
+        });
+        let plain = (
             proptest::collection::vec(any::<u16>(), 0..160),
             proptest::collection::vec((proptest::collection::vec(any::<u16>(), 0..60), 0usize..8, 0usize..20), 2..8),
         )
@@ -130,8 +186,8 @@ impl Property for C19 {
                 }
                 json!({"doc": text, "queries": queries, "ns": ns.iter().map(|(p, u)| json!([p, u])).collect::<Vec<_>>(),
                        "_labels": labels, "_nontrivial": fail_then_probe || queries.len() >= 4})
-            })
-            .boxed()
+            });
+        prop_oneof![3 => plain, 1 => dtd].boxed()
     }
     fn fixed_cases(&self, _tier: Tier) -> Vec<Json> {
         crate::engine::regress_cases("C19")
